@@ -5,6 +5,7 @@ import Bardolph.Driver.Web
 import Bardolph.Driver.Output
 import Bardolph.Driver.Snapshot
 import Bardolph.Driver.Units
+import Bardolph.Driver.Lex
 /-! All driver handlers; `dispatch` routes one request line. -/
 namespace Bardolph.Driver
 
@@ -15,7 +16,8 @@ def handlers : List (String → List String → Option String) := [
   Web.handle,
   Out.handle,
   Snap.handle,
-  Units.handle
+  Units.handle,
+  LexD.handle
 ]
 
 def dispatch (line : String) : String :=
